@@ -222,6 +222,11 @@ class MultiFS(FS):
                 directory.extend(_fs.listdir(path))
             except errors.ResourceNotFound:
                 pass
+            except errors.DirectoryExpected:
+                # a file of that name: it answers for the path if no filesystem of
+                # higher priority holds it as a directory, else it is shadowed
+                if not exists:
+                    raise
             else:
                 exists = True
         if not exists:
@@ -289,6 +294,10 @@ class MultiFS(FS):
                 exists = True
             except errors.ResourceNotFound:
                 pass
+            except errors.DirectoryExpected:
+                # as in listdir: a shadowed file is skipped, a winning one answers
+                if not exists:
+                    raise
 
         if not exists:
             raise errors.ResourceNotFound(path)
